@@ -100,9 +100,14 @@ Fields == {"synchronization.minimum-agreeing-sources", "synchronization.local-st
            "source-defaults.initial-poll-interval", "source-defaults.poll-interval-limits.min", "source-defaults.poll-interval-limits.max",
            "observability.observation-permissions", "observability.metrics-exporter-listen",
            "keyset.stale-key-count", "keyset.key-rotation-interval",
-           "source.pool.count", "source.sock.precision", "source.sock.accuracy",
+           "source.pool.count", "source.sock.precision", "source.sock.accuracy", "source.sock.measurement_noise_estimate",
+           "source.csptp.poll_interval", "source.csptp.response_interval", "source.csptp.domain",
+           "source.pps.precision", "source.pps.accuracy", "source.pps.period", "source.pps.measurement_noise_estimate",
+           "nts-ke-server.key-exchange-timeout-ms", "nts-ke-server.concurrent-connections",
+           "nts-ke-server.longlived-connections", "nts-ke-server.ntp-port",
            "server.rate-limiting-cache-size", "server.rate-limiting-cutoff-ms"}
-StructVals == Vals \cup {"hugeint", "table", "array"}
+\* "hugefloat" 1e30, "durmax" 1.9e19 (just above what a std Duration holds), "tiny" 1e-320 (subnormal)
+StructVals == Vals \cup {"hugeint", "table", "array", "hugefloat", "durmax", "tiny"}
 Malformed == {"empty", "garbage", "unknown-key", "unknown-table", "duplicate-key", "duplicate-table", "table-as-number",
               "array-as-table", "unterminated-string", "nested-threshold-unknown-key", "threshold-duplicate-direction",
               "threshold-empty-map", "threshold-array"}
